@@ -1,11 +1,8 @@
 package c16
 
 import (
-	"bytes"
 	"fmt"
 	"math/rand"
-	"os"
-	"path/filepath"
 	"regexp"
 	"strings"
 	"sync"
@@ -20,94 +17,12 @@ import (
 	"github.com/scrapli/scrapligo/transport"
 	"github.com/scrapli/scrapligo/util"
 
-	"golang.org/x/crypto/ssh"
-
 	"verif/internal/devsim"
 	"verif/internal/mon"
 	"verif/internal/ncsim"
 	"verif/internal/ncwire"
 	"verif/internal/sshsim"
 )
-
-// ---- raw link over the real ssh client (unblock cases) --------------------------------------------
-
-type sshLink struct {
-	*link
-	srv *sshsim.Server
-}
-
-var keyOnce sync.Once
-var clientKey *sshsim.KeyFile
-var clientKeyErr error
-
-func theKey() (*sshsim.KeyFile, error) {
-	keyOnce.Do(func() {
-		clientKey, clientKeyErr = sshsim.NewKeyFile(filepath.Join(workDir(), fmt.Sprintf("id_c16_%d", os.Getpid())))
-	})
-	return clientKey, clientKeyErr
-}
-
-// openSSHLink opens the system transport with the real ssh client (key auth, escape character
-// off) against an in-process server whose shell is a raw pipe.
-func openSSHLink(readSize int) (*sshLink, error) {
-	lg, _ := logging.NewInstance()
-	k, err := theKey()
-	if err != nil {
-		return nil, fmt.Errorf("%w: %v", errSetup, err)
-	}
-	srv, err := sshsim.NewServer()
-	if err != nil {
-		return nil, fmt.Errorf("%w: %v", errSetup, err)
-	}
-	l := &link{kind: "system-ssh"}
-	sl := &sshLink{link: l, srv: srv}
-	l.cleanup = append(l.cleanup, srv.Close)
-	srv.SetAccount(sshUser, &sshsim.Account{Keys: []ssh.PublicKey{k.Public}})
-	sessCh := make(chan *sshsim.Session, 1)
-	release := make(chan struct{})
-	l.cleanup = append(l.cleanup, func() { close(release) })
-	srv.SetHandler(func(s *sshsim.Session) {
-		s.Write([]byte(sshsim.ReadyMarker))
-		sessCh <- s
-		<-release
-	})
-	fail := func(e error) (*sshLink, error) {
-		l.closeTransport(true, 5*time.Second)
-		l.close()
-		return sl, e
-	}
-	l.tr, err = transport.NewTransport(lg, "127.0.0.1", transport.SystemTransport,
-		options.WithPort(srv.Port()), options.WithAuthUsername(sshUser), options.WithAuthPrivateKey(k.Path, ""), options.WithAuthNoStrictKey(),
-		options.WithSystemTransportOpenArgs([]string{"-e", "none"}), options.WithTransportReadSize(readSize), options.WithTimeoutSocket(20*time.Second))
-	if err != nil {
-		return fail(err)
-	}
-	if err = l.tr.Open(); err != nil {
-		return fail(err)
-	}
-	l.pid = sshsim.SystemPid(l.tr.Impl)
-	select {
-	case s := <-sessCh:
-		l.peer = s
-		l.killPeer = s.Kill
-	case <-time.After(30 * time.Second):
-		return fail(fmt.Errorf("%w: ssh did not open a session within 30 s", errSetup))
-	}
-	var got []byte
-	deadline := time.Now().Add(20 * time.Second)
-	for !bytes.Contains(got, []byte(sshsim.ReadyMarker)) {
-		if time.Now().After(deadline) {
-			return fail(fmt.Errorf("%w: no readiness marker through ssh, got %q", errSetup, got))
-		}
-		b, e := l.tr.Read()
-		if e != nil {
-			return fail(fmt.Errorf("%w: reading the readiness marker through ssh: %v (got %q)", errSetup, e, got))
-		}
-		got = append(got, b...)
-	}
-	l.pre = got[bytes.Index(got, []byte(sshsim.ReadyMarker))+len(sshsim.ReadyMarker):]
-	return sl, nil
-}
 
 // ---- end-to-end differential: CLI -----------------------------------------------------------------
 
